@@ -271,6 +271,9 @@ pub struct Expected {
     pub alpn: Option<Vec<u8>>,
     pub alpn_chars: String,
     pub judge_alpn: bool,
+    /// when the ALPN characters are not judged exactly: the two-character values the published
+    /// editions allow (empty = nothing is known)
+    pub alpn_alts: Vec<String>,
     pub ciphers_wire: Vec<u16>,
     pub ciphers_ng: Vec<u16>,
     pub exts_wire: Vec<u16>,
@@ -401,6 +404,26 @@ pub fn ref_ja4_opts(h: &Hello, dev: Dev) -> Expected {
         }
     }
     let alpn = alpn_ext.and_then(|p| p.first().cloned());
+    // first ALPN name of >= 2 bytes with a non-alphanumeric first or last byte: the editions of
+    // the specification differ (older: the characters themselves, 9 for a non-ASCII byte; current:
+    // first and last character of the hex form of the name), but each of them fixes the value
+    let mut alpn_alts: Vec<String> = Vec::new();
+    if let Some(first) = alpn_ext.and_then(|p| p.first()) {
+        // a name of one character (one byte, or one multi-byte UTF-8 character) has no distinct
+        // "last" character: the editions do not say what the second position shows then
+        let one_char = std::str::from_utf8(first).map(|t| t.chars().count() < 2).unwrap_or(false);
+        if first.len() >= 2 && !one_char {
+            let (f, l) = (first[0], first[first.len() - 1]);
+            if !(f.is_ascii_alphanumeric() && l.is_ascii_alphanumeric()) {
+                let old = |b: u8| if b.is_ascii() { b as char } else { '9' };
+                alpn_alts.push(format!("{}{}", old(f), old(l)));
+                let hex = format!("{:x}{:x}", f >> 4, l & 0x0f);
+                if !alpn_alts.contains(&hex) {
+                    alpn_alts.push(hex);
+                }
+            }
+        }
+    }
     let (alpn_chars, judge_alpn) = match alpn_ext {
         None => ("00".to_string(), true),
         Some(p) => match p.first() {
@@ -461,6 +484,7 @@ pub fn ref_ja4_opts(h: &Hello, dev: Dev) -> Expected {
         alpn,
         alpn_chars,
         judge_alpn,
+        alpn_alts,
         ciphers_wire,
         ciphers_ng,
         exts_wire,
@@ -641,6 +665,14 @@ pub fn diff(exp: &Expected, obs: &Obs) -> Vec<String> {
         };
         if e != a {
             d.push(format!("{}: expected {} got {}", names_o[i], e, a));
+        }
+    }
+    if !ja && !exp.alpn_alts.is_empty() {
+        for (name, got) in [("a", &obs.s[0]), ("a(o)", &obs.o[0])] {
+            let chars: String = got.chars().skip(8).take(2).collect();
+            if !exp.alpn_alts.contains(&chars) {
+                d.push(format!("{name}: ALPN characters {chars:?} are none of {:?} (the values the published editions give)", exp.alpn_alts));
+            }
         }
     }
     if jv {
